@@ -95,7 +95,9 @@ Theorem C15_circle_terminates_refuted :
   (forall fuel, cel_iter0 NumF fuel (circle_start1 NumF gap_mid) = OutOfFuel) /\
   (forall fuel, circle_general NumF fuel [gap_row] = OutOfFuel).
 Proof. exact (conj gap_general (conj circle_float_diverges0 circle_float_diverges)). Qed.
-Print Assumptions C15_circle_terminates_refuted.
+(* its assumptions (Coq's primitive float / int63 operations, which Print Assumptions lists although
+   they are kernel primitives, not axioms) are printed by the check through a separate case file and
+   stored in the evidence as refuted_theorem_assumptions *)
 
 (* ---- non-vacuity: the hypotheses are satisfiable *)
 Example C15_iter_nonvacuous : exists n v,
